@@ -260,7 +260,7 @@ func PrepareForPackager(
 		switch content.Type {
 		case TypeDir:
 			// implicit directories at the same destination can just be overwritten
-			presentContent, destinationOccupied := contentMap[NormalizeAbsoluteDirPath(content.Destination)]
+			presentContent, destinationOccupied := occupant(contentMap, NormalizeAbsoluteDirPath(content.Destination))
 			if destinationOccupied && presentContent.Type != TypeImplicitDir {
 				return nil, contentCollisionError(content, presentContent)
 			}
@@ -279,7 +279,7 @@ func PrepareForPackager(
 			// have been expanded so we can just ignore it, it will be created
 			// by another content element again anyway
 		case TypeRPMGhost, TypeSymlink, TypeRPMDoc, TypeRPMLicence, TypeRPMLicense, TypeRPMReadme, TypeDebChangelog:
-			presentContent, destinationOccupied := contentMap[NormalizeAbsoluteFilePath(content.Destination)]
+			presentContent, destinationOccupied := occupant(contentMap, NormalizeAbsoluteFilePath(content.Destination))
 			if destinationOccupied {
 				return nil, contentCollisionError(content, presentContent)
 			}
@@ -355,7 +355,7 @@ func addParents(contentMap map[string]*Content, path string, mtime time.Time) er
 		parent = NormalizeAbsoluteDirPath(parent)
 		// check for content collision and just overwrite previously created
 		// implicit directories
-		c, ok := contentMap[parent]
+		c, ok := occupant(contentMap, parent)
 		if ok {
 			// either we already created this directory as an explicit directory
 			// or as an implicit directory of another file
@@ -382,6 +382,23 @@ func addParents(contentMap map[string]*Content, path string, mtime time.Time) er
 	}
 
 	return nil
+}
+
+// occupant returns the entry that already occupies the given destination,
+// either under the very same key or as its counterpart of the other kind: the
+// same path taken by a file ("/foo") and by a directory ("/foo/").
+func occupant(all map[string]*Content, dst string) (*Content, bool) {
+	if c, ok := all[dst]; ok {
+		return c, true
+	}
+
+	if counterpart, isDir := strings.CutSuffix(dst, "/"); isDir {
+		c, ok := all[counterpart]
+		return c, ok
+	}
+
+	c, ok := all[dst+"/"]
+	return c, ok
 }
 
 func sortedParents(dst string) []string {
@@ -413,7 +430,7 @@ func addGlobbedFiles(
 ) error {
 	for src, dst := range globbed {
 		dst = NormalizeAbsoluteFilePath(dst)
-		presentContent, destinationOccupied := all[dst]
+		presentContent, destinationOccupied := occupant(all, dst)
 		if destinationOccupied {
 			c := *origFile
 			c.Destination = dst
@@ -457,7 +474,7 @@ func addTree(
 	mtime time.Time,
 ) error {
 	if tree.Destination != "/" && tree.Destination != "" {
-		presentContent, destinationOccupied := all[NormalizeAbsoluteDirPath(tree.Destination)]
+		presentContent, destinationOccupied := occupant(all, NormalizeAbsoluteDirPath(tree.Destination))
 		if destinationOccupied && presentContent.Type != TypeImplicitDir {
 			return contentCollisionError(tree, presentContent)
 		}
